@@ -39,3 +39,22 @@ PROP['theorems'] = PROP['theorems'] + [
     'Fit.C16.C16_go2lean_masks_format']
 PROP['trusted_base'] = PROP['trusted_base'] + [
     "translators/go2lean (Go→Lean for a small subset of Go, notes/go2lean.md) re-translates proto.LocalMesgNum and the header masks of proto/proto.go from the current source on every run; the agreement theorems *_go2lean_* state that the translated functions equal the hand-written model functions for all arguments; trusted: the translator's rendering of the subset (go/types computes constants and types) and FitModel/GoPrelude.lean"]
+
+# --- tie by translation, decoder/raw.go (unit rawsize; notes/go2lean-add-r.md; agreement theorems in lean/FitProps/Go2LeanRawSize.lean,
+# restated in lean/FitProps/C16Go2Lean.lean)
+PROP['regen'] = PROP['regen'] + ['go2lean:rawsize']
+PROP['go2lean_diff'] = PROP['go2lean_diff'] + ['RawSize']
+PROP['theorems'] = PROP['theorems'] + [
+    'Fit.C16.C16_go2lean_raw_fieldSizes',
+    'Fit.C16.C16_go2lean_raw_devCount',
+    'Fit.C16.C16_go2lean_raw_devFieldSizes',
+    'Fit.C16.C16_go2lean_raw_conds',
+    'Fit.C16.C16_go2lean_raw_nFields',
+    'Fit.C16.C16_go2lean_raw_moreData',
+    'Fit.C16.C16_go2lean_raw_lensInit',
+    'Fit.C16.C16_go2lean_raw_store',
+    'Fit.C16.C16_go2lean_raw_lookup',
+    'Fit.C16.C16_go2lean_raw_reads',
+    'Fit.C16.C16_go2lean_raw_count']
+PROP['trusted_base'] = PROP['trusted_base'] + [
+    "translators/go2lean also re-translates the length bookkeeping of (*RawDecoder).Decode (decoder/raw.go) from the current source on every run: the statement runs that compute the data-record length at definition time (1 + field sizes + developer field sizes, both `i += 3` loops), store it per local message number and look it up, the per-sequence initialisation of that table, the header-byte conditions, the data-size loop condition `uint32(n-pos) < fileHeaderDataSize`, the bounds of all fifteen slice expressions of d.BytesArray (how many bytes each io.ReadFull asks for, which bytes the callback sees), the nine `n += int64(nr)` and `seq++` (items selected structurally: function + assigned variable, or sliced operand + occurrence number); the agreement theorems C16_go2lean_raw_* state that each translated piece equals the corresponding piece of Fit.Raw.msgs / Fit.Raw.decode for all arguments; NOT translated (outside the subset, covered by the correspondence families only): the calls io.ReadFull, binary.LittleEndian.Uint32, fn and the error returns themselves, and the order in which Decode composes the pieces"]
